@@ -911,6 +911,7 @@ func (x *Exec) mapUpdate(m MapRef, k, v Value) {
 	if m.M == nil {
 		x.goPanic("assignment to entry in nil map")
 	}
+	x.frozenMapWrite(m.M)
 	if scalarMap(m.M, v) {
 		vt := v.(*smt.Term)
 		any := x.st.False
@@ -938,6 +939,7 @@ func (x *Exec) mapDelete(m MapRef, k Value) {
 	if m.M == nil {
 		return
 	}
+	x.frozenMapWrite(m.M)
 	for _, e := range m.M.Entries {
 		hit := x.st.BAnd(e.Present, x.keyEq(m.M.KT, e.K, k))
 		e.Present = x.st.BAnd(e.Present, x.st.BNot(hit))
